@@ -27,6 +27,8 @@ CLASSES = {
     "tagdict-only": (K_TOK[:2], [{"fmt": "tok", "s": cps("a/A あ/B/Y b/M")}]),
     "tagged-fixed-then-varying": ([{"fmt": "tok", "s": cps(x)} for x in ["a/A/X あ/B", "a/A/Y あ/B/K", "1/N a/A/X", "あ/B/K/M a/A/Y/P", "あ/B/K/L 1"]], []),
     "tagged-many-classes": ([{"fmt": "tok", "s": cps(x)} for x in ["a/A あ/B", "a/C あ/D", "a/E あ/F", "a/G a/H a/I", "a/J a/K a/L 1"]], []),
+    "tagged-mixed-arity": ([{"fmt": "tok", "s": cps(x)} for x in ["a/A/X あ", "a/A/Y あ/B", "a/A 1", "あ/B/K a/Z", "1 a/Q あ/B/L"]], []),
+    "final-period": ([{"fmt": "tok", "s": cps(x)} for x in ["aあ 1a a 。", "あ aa1 。", "1 aあa 1。", "a あ 。"]], []),
     "one-char-sentences": ([{"fmt": "tok", "s": cps("a")}, {"fmt": "tok", "s": cps("あ")}], []),
 }
 
